@@ -171,3 +171,32 @@ Example C13_example :
   invalid_count (header_events hud_fields ++ [line_comment_event (s " note"); empty_line_event; code_event]) = 0%nat /\
   invalid_count (hm4k_events 5 hud_fields ++ [empty_line_event]) = 1%nat.
 Proof. repeat split; vm_compute; reflexivity. Qed.
+
+(* ---- the lexer half of file -> trace (Proofs/CommentLines.v, Proofs/HeaderLex.v): for all fields whose texts form no
+   di/trigraph and hold no backslash, ?, tab (fields_lex_ok), the 42 header followed by ANY text is lexed into exactly one
+   MULT_COMMENT token per template line (value = the line, column 1) and its NEWLINE, then the tokens of the text shifted by
+   11 lines.  That IsComment matches MULT_COMMENT NEWLINE stays tested. *)
+From NV Require Import Model.Lexer Proofs.LineShift Proofs.LineShiftCor Proofs.CommentLines Proofs.HeaderLex.
+Theorem C13_header_lexed : forall uw ud f src items xf, fields_lex_ok f = true ->
+  lex uw ud src = Ok (items, xf) ->
+  lex uw ud (lines_text (template f) ++ src) =
+    Ok (comment_items 0 1 (template_mids f) ++ map (sh_item 11 (List.length (lines_text (template f)))) items,
+        shl 11 (List.length (lines_text (template f))) xf).
+Proof. exact header_then_text_lexed. Qed.
+Print Assumptions C13_header_lexed.
+
+Theorem C13_header_tokens : forall f,
+  map (fun t => (t_type t, t_val t)) (tokens_of (comment_items 0 1 (template_mids f))) =
+  flat_map (fun line => [(MULT_COMMENT, Some line); (NEWLINE, None)]) (template f).
+Proof. exact header_tokens. Qed.
+Print Assumptions C13_header_tokens.
+
+Theorem C13_header_comment_positions : forall bs o l,
+  map (fun t => (t_line t, t_col t)) (filter (fun t => str_eqb (t_type t) MULT_COMMENT) (tokens_of (comment_items o l bs))) =
+  map (fun i => (l + Z.of_nat i, 1)) (seq 0 (List.length bs)).
+Proof. exact comment_items_positions. Qed.
+Print Assumptions C13_header_comment_positions.
+
+Theorem C13_fields_simple_lex_ok : forall f, fields_simple f = true -> fields_lex_ok f = true.
+Proof. exact fields_simple_lex_ok. Qed.
+Print Assumptions C13_fields_simple_lex_ok.
